@@ -109,6 +109,38 @@ def run(rep, tier, rng):
             rep.violation("%s is not equivalent to its textual expansion" % kd,
                           {"kind": "search", "family": "masm", "case": c1, "expanded_case": c2, "impl": x[:600], "expanded": y[:600]})
             found = True
+    # ---- exec of an IMPORTED procedure behaves like its body pasted at the call site, also when the body
+    #      contains calls (their targets must come along): both forms assemble, are self-contained and run ----
+    hx = lambda t: t.encode().hex()
+    ri = r.fork("imp")
+    lib_g = "export.g\n push.3 add\nend\nexport.h\n push.5 mul\nend\n"
+    bodies = ["push.1 call.g drop", "push.2 push.1 if.true call.g else call.h end drop", "push.1 repeat.2 call.h end drop",
+              "push.0 push.1 while.true push.8 call.g drop end", "push.7 exec.g drop", "push.1 if.true push.2 call.h drop end"]
+    icases = []
+    for body in bodies:
+        in_lib = body.replace("call.g", "call.g").replace("call.h", "call.h")
+        lib_src = lib_g + "export.f\n %s\nend\n" % in_lib
+        pasted = body.replace("call.g", "call.m0::g").replace("call.h", "call.m0::h").replace("exec.g", "exec.m0::g")
+        pre, post = ri.choice(["push.9", "push.4 push.6 add"]), ri.choice(["drop", "push.1 add drop"])
+        p_exec = "use.a::m0\nbegin %s exec.m0::f %s end" % (pre, post)
+        p_paste = "use.a::m0\nbegin %s %s %s end" % (pre, pasted, post)
+        icases.append("lib a %s | prog %s | prog %s" % (hx(lib_src), hx(p_exec), hx(p_paste)))
+    for c, x in zip(icases, common.run_impl("asmseq", icases, tag="c06i")):
+        parts = x.split(" || ")
+        dist["imported-exec:%s" % parts[0].split()[0]] += 1
+        if len(parts) != 2 or "PANIC" in x:
+            rep.violation("assembling an imported exec panics or fails: " + x[:120], {"kind": "search", "family": "asmseq", "case": c, "impl": x[:400]})
+            found = True
+            continue
+        e_sh, p_sh = parts[0].split(" ;; ")[0], parts[1].split(" ;; ")[0]
+        outs6 = parts[0].split(" ;; ") + parts[1].split(" ;; ")
+        runs = {o.split("run=")[-1] for o in outs6 if o.startswith("OK")}
+        bad = [o for o in outs6 if not (o.startswith("OK") and "closed=1" in o)] or (["run classes differ: %s" % sorted(runs)] if len(runs) != 1 or "CodeBlockNotFound" in runs else [])
+        # (the two forms need not have the same MAST root: pasted operations merge with the neighbouring spans)
+        if bad:
+            rep.violation("exec of an imported procedure does not behave like its body pasted at the call site (%s vs %s)" % (e_sh[:70], p_sh[:70]),
+                          {"kind": "search", "family": "asmseq", "case": c, "impl": x[:500]})
+            found = True
     base.report_proof_failure(rep, "C06", pr, found)
     rep.coverage.update({
         "evaluations": 2 * len(ms) + len(dec) + len(mm1),
